@@ -276,10 +276,51 @@ def no_fileinfo(dump):
     return FILEINFO.sub(" F=*", dump)
 
 
-def round_trip(od, doctype, dest, nid):
+def all_variables(od):
+    for obj in od.values():
+        if isinstance(obj, odm.ODVariable):
+            yield obj
+        else:
+            for m in obj.values():
+                if isinstance(m, odm.ODVariable):
+                    yield m
+
+
+def earlier_export(od):
+    """history: the dictionary was exported before, when its defaults and values were different ones; exporting
+    has no lasting effect on the dictionary, so the later export shows the later state"""
+    saved = []
+    for v in all_variables(od):
+        saved.append((v, v.default, v.value))
+        for attr in ("default", "value"):
+            x = getattr(v, attr)
+            if isinstance(x, bool):
+                setattr(v, attr, not x)
+            elif isinstance(x, int):
+                setattr(v, attr, 0 if x else 1)
+            elif isinstance(x, float):
+                setattr(v, attr, x + 1.0)
+            elif isinstance(x, str):
+                setattr(v, attr, x + "x")
+            elif isinstance(x, (bytes, bytearray)):
+                setattr(v, attr, bytes(x) + b"\x00")
+    try:
+        for dt in ("eds", "dcf"):
+            try:
+                canopen.export_od(od, io.StringIO(), doc_type=dt)
+            except Exception:
+                pass
+    finally:
+        for v, d, x in saved:
+            v.default, v.value = d, x
+
+
+def round_trip(od, doctype, dest, nid, history=False):
     # the node id in force for the original dictionary is in force for the re-import
     if nid is None:
         nid = od.node_id
+    if history:
+        earlier_export(od)
     head = "O=(" + no_fileinfo(E.show_od(od)) + ")"
     try:
         texts = export_all(od, doctype)
@@ -303,7 +344,7 @@ def run_impl(op):
     a = op.split(" ")
     if a[0] == "rt":
         nid = None if a[3] == "none" else int(a[3])
-        return round_trip(build_od(a[4]), a[1], a[2], nid)
+        return round_trip(build_od(a[4]), a[1], a[2], nid, history=True)
     if a[0] == "rti":
         nid = None if a[3] == "none" else int(a[3])
         text = E.write_eds(json.loads(E.unhx(a[7]))) if a[6] == "w" else E.unhx(a[7])
